@@ -252,7 +252,7 @@ UPDATES = (
     'a = a + b',
     'b = a * b',
     'a = a - fp.round(0.1)',
-    'b = b / a',
+    'b = fp.round(b) / a',
     'a = fp.sqrt(abs(b)) + a',
     'b = fp.fma(a, b, u)',
 )
@@ -358,10 +358,18 @@ TEMPLATES = {
                ['return (a, b)']),
     'argsum': ('list', ['c = sum(us) + a', 'd = us[0] * c', 'bs = [x < c for x in us]', 'r = all(bs) or any(bs)'],
                ['return (c, d, r)']),
+    'whilemin': ('scalar', ['c = abs(a) + fp.round(1)',
+                            ('while', 'min(c, fp.round(30)) < fp.round(20)', [('s', 'c = c * fp.round(2) + abs(b)')]),
+                            'd = c - a', 'b = d * c'],
+                 ['return (c, d, b)']),
     'arglen': ('list', ['n = len(us)', 'ys = [x * a + b for x in us]', 'bs = [y > a for y in ys]',
                         'c = a + n if any(bs) else b * n'],
                ['return (c, ys)', 'return all(bs)']),
 }
+
+
+def _item(x):
+    return S(x) if isinstance(x, str) else x
 
 
 def template_programs(names, pairs):
@@ -382,12 +390,12 @@ def template_programs(names, pairs):
                         if outer in seen_unsplit:
                             continue
                         seen_unsplit.add(outer)
-                        body = [S(x) for x in lines]
+                        body = [_item(x) for x in lines]
                         rkey = 'none'
                     else:
                         i, j = rg
-                        body = [S(x) for x in lines[:i]] + [W(inner, [S(x) for x in lines[i:j]])] + \
-                               [S(x) for x in lines[j:]]
+                        body = [_item(x) for x in lines[:i]] + [W(inner, [_item(x) for x in lines[i:j]])] + \
+                               [_item(x) for x in lines[j:]]
                         rkey = f'{i}-{j}'
                     items = [W(outer, [S('a = u'), S('b = v')] + body)]
                     key = f'T/{name}/ret{ri}/{outer}/{inner if rg else "-"}/{rkey}'
